@@ -83,3 +83,60 @@ Theorem C04_model_mesh_frame :
       nth_error (cr_out r) (Z.to_nat k) = Some (Some (e_src e, e_dst e)).
 Proof. exact mesh_frame. Qed.
 Print Assumptions C04_model_mesh_frame.
+
+(* Part 4: on the HARDWARE model (Hw.v: floo_route_select's X-then-Y comparison on the emitted coordinate
+   fields, the Y-to-X turn ban and the loop-back ban of floo_router, signals followed from driver to reader),
+   for every XY description whose routers are one auto-connected m x n array and on every physical network: a
+   flit that carries the coordinate of an interface t on the local port of router (tx, ty), injected by any
+   interface s0 that enters the array at router (a, b) on a port compatible with the dimension-ordered path, is
+   delivered to exactly t.  The proof walks the array: the emitted router identity is (i,j) minus the offset and
+   fits its field (C07_model_xy), so the comparison is on true coordinates; compass port k of router (i,j) holds
+   the link to (i,j) + step(k) (C04_model_mesh_frame); that link arrives on the opposite port (pairing,
+   uniqueness of slots); each hop shortens the Manhattan distance; the masks never trigger (inp_ok); the array
+   has m*n routers, so the fuel of Hw.send suffices.  Hypotheses: the wiring checker passes (or the side
+   conditions of C05_model_signals), the destination sits on the local port, and the entry port is compatible
+   (it always is for a source on a local port, East or West; a source on a North / South boundary port reaches
+   its own column only -- the turn ban). *)
+From FV Require Import Routing Emit Hw Check CheckProofs Side ModelBase ModelProofs HwProofs WireProofs XYProofs Examples RefOracle.
+Theorem C04_hw_delivered :
+  forall d g c rd mm nn sp ri n nt xb yb ab ox oy t tx ty,
+    build d = Ok g -> compile d g = Ok c -> d_algo d = XY ->
+    d_rts d = [rd] -> rt_array rd = Some [mm; nn] -> rt_tree rd = None -> rt_auto rd = true ->
+    net_ok d nt -> gen_routing_info sp c = Ok ri -> emit c ri = Ok n -> chk_C05 n = [] ->
+    ri_xy ri = Some (xb, (yb, (ab, (ox, oy)))) ->
+    In t (c_nis c) -> cn_id t = IdXY tx ty 0 -> in_grid mm nn tx ty ->
+    (forall r, In r (c_rts c) -> cr_name r = full_name (rt_name rd) [tx; ty] ->
+       nth_error (cr_out r) 4 = Some (Some (full_name (rt_name rd) [tx; ty], cn_name t))) ->
+    forall s0 a b, In s0 (c_nis c) -> snd (attach nt s0) = full_name (rt_name rd) [a; b] -> in_grid mm nn a b ->
+      (forall r i, In r (c_rts c) -> cr_name r = full_name (rt_name rd) [a; b] ->
+         nth_error (cr_in r) i = Some (Some (cn_name s0, full_name (rt_name rd) [a; b])) -> inp_ok tx ty a b i) ->
+      let hd := hdr_of_id n (Netlist.ni_id (emit_ni d (ri_offset ri) t)) in
+      t_out (send n nt (emit_ni d (ri_offset ri) s0) hd) = Delivered (cn_name t) hd.
+Proof.
+  intros d g c rd mm nn sp ri n nt xb yb ab ox oy t tx ty Hb Hc Ha Hrts Harr Htree Hauto Hnt Hri He Hchk Hxy Ht Hid Htg Hdest
+         s0 a b Hs0 Hatt Hab Hinp. cbv zeta.
+  assert (Hcd : c_desc c = d) by apply (compile_desc d g c Hc).
+  pose proof (xy_header sp c ri n t tx ty xb yb ab ox oy Hri He Hxy Ht Hid) as Hh. rewrite Hcd in Hh. rewrite Hh.
+  exact (xy_send d g c rd mm nn Hb Hc Ha Hrts Harr Htree Hauto sp ri n nt Hnt Hri He
+           (fun l Hl _ => proj2 (chk_C05_sound n Hchk) l Hl) xb yb ab ox oy Hxy t tx ty Ht Htg Hdest s0 a b Hs0 Hatt Hab Hinp).
+Qed.
+Print Assumptions C04_hw_delivered.
+
+(* non-vacuity: on the 2 x 2 example (clusters on the local ports, memories on the West boundary) every cluster
+   reaches every other cluster on both networks, and the wiring checker passes *)
+Example C04_hw_nonvacuous :
+  match (do g <- build (ex_mesh XY); do c <- compile (ex_mesh XY) g; do ri <- gen_routing_info sp_reference c;
+         do n <- emit c ri; Ok (c, (ri, n))) with
+  | Ok (c, (ri, n)) =>
+      match chk_C05 n with [] => true | _ => false end &&
+      forallb (fun nt => forallb (fun s0 => forallb (fun t =>
+          negb (String.prefix "cluster" (cn_name s0) && String.prefix "cluster" (cn_name t)) ||
+          str_eqb (cn_name s0) (cn_name t) ||
+          match t_out (send n nt (emit_ni (ex_mesh XY) (ri_offset ri) s0)
+                         (hdr_of_id n (Netlist.ni_id (emit_ni (ex_mesh XY) (ri_offset ri) t)))) with
+          | Delivered u _ => str_eqb u (cn_name t)
+          | _ => false
+          end) (c_nis c)) (c_nis c)) [Req; Rsp]
+  | Err _ => false
+  end = true.
+Proof. vm_compute. reflexivity. Qed.
